@@ -1,7 +1,7 @@
 (* Props/C13.v -- statements claimed for C13 (geometric measures), about Model/TriaGeom.v over R. *)
 From Coq Require Import List Arith Reals.
 From LaPyV Require Import Base.Scalar Base.Vec3 Base.ListAux Base.Sparse Model.TetMesh Model.TriaAdj Model.TriaOrient
-  Model.Fem Model.TriaGeom Proofs.SparseP Proofs.FemTriaP Proofs.TriaGeomP Proofs.TriaOrientP Proofs.TriaAdjP Proofs.InvarianceP Proofs.VolumeTransP Proofs.VolumeScaleP Proofs.QualityInvarP Proofs.NormalOffsetP Proofs.AreaInvarP.
+  Model.Fem Model.TriaGeom Proofs.SparseP Proofs.FemTriaP Proofs.TriaGeomP Proofs.TriaOrientP Proofs.TriaAdjP Proofs.InvarianceP Proofs.VolumeTransP Proofs.VolumeScaleP Proofs.QualityInvarP Proofs.FlowP Proofs.CentroidAffP Proofs.NormalOffsetP Proofs.AreaInvarP.
 Import ListNotations.
 Open Scope R_scope.
 
@@ -158,3 +158,15 @@ Theorem C13_qualities_invariant_under_scaling : forall s v ts, s <> 0 -> tris_in
   tria_qualities Rops (map (vscaleR s) v) ts = tria_qualities Rops v ts.
 Proof. exact tria_qualities_scale_invariant. Qed.
 Print Assumptions C13_qualities_invariant_under_scaling.
+
+(* centroid(): under p -> s (p - c) with s > 0 the returned centre moves the same way and the returned total area is multiplied
+   by s^2, for every mesh of non-zero area (translation: s = 1) *)
+Theorem C13_centroid_equivariant_under_translation_and_scaling : forall s c v ts, 0 < s -> tris_in_range (length v) ts -> 0 < total_area v ts ->
+  centroid Rops (map (aff s c) v) ts = (aff s c (fst (centroid Rops v ts)), s * s * snd (centroid Rops v ts)).
+Proof. exact centroid_aff. Qed.
+Print Assumptions C13_centroid_equivariant_under_translation_and_scaling.
+
+Theorem C13_centroid_follows_translation : forall c v ts, tris_in_range (length v) ts -> 0 < total_area v ts ->
+  centroid Rops (map (fun p => vsub Rops p c) v) ts = (vsub Rops (fst (centroid Rops v ts)) c, snd (centroid Rops v ts)).
+Proof. exact centroid_translation. Qed.
+Print Assumptions C13_centroid_follows_translation.
